@@ -64,11 +64,11 @@ theorem Dom_buildable (i : Input) (h : Dom i = true) : buildable i = true ∧ en
   rcases h with ((h | h) | h) | h
   · unfold domReach at h
     split at h
-    · simp only [Bool.and_eq_true] at h; exact ⟨h.1.1.1.1.1.1.1, h.1.1.1.1.1.1.2⟩
+    · simp only [Bool.and_eq_true] at h; exact ⟨h.1.1.1.1.1.1, h.1.1.1.1.1.2⟩
     · cases h
   · unfold domUnreach at h
     split at h
-    · simp only [Bool.and_eq_true] at h; exact ⟨h.1.1.1.1.1, h.1.1.1.1.2⟩
+    · simp only [Bool.and_eq_true] at h; exact ⟨h.1.1.1.1, h.1.1.1.2⟩
     · cases h
   · unfold domSmall at h
     split at h
